@@ -284,12 +284,16 @@ impl Explorer {
             let frontier_ref = &frontier;
             let deadline = t0 + self.limits.time_budget;
             let timed_out = AtomicUsize::new(0);
+            // calls that did not return are expensive (one watchdog period each, and the executor's threads are
+            // lost): after HANG_CAP of them in one layer the layer is abandoned and the run reported as capped
+            const HANG_CAP: usize = 24;
+            let hang_count = AtomicUsize::new(0);
             std::thread::scope(|s| {
                 for _ in 0..self.limits.workers.min(n).max(1) {
                     s.spawn(|| {
                         let mut ex = Exec::new(self.limits.pool_size);
                         loop {
-                            if Instant::now() > deadline {
+                            if Instant::now() > deadline || hang_count.load(Ordering::SeqCst) >= HANG_CAP {
                                 timed_out.store(1, Ordering::SeqCst);
                                 break;
                             }
@@ -324,6 +328,7 @@ impl Explorer {
                                         std::process::exit(2);
                                     }
                                     Outcome::Hang(ctx, label) => {
+                                        hang_count.fetch_add(1, Ordering::SeqCst);
                                         hangs.push((ctx, label.clone()));
                                         if skip.contains(&label) || skip.len() > 50 {
                                             eprintln!("MACHINERY: repeated hang at {}", label);
@@ -345,13 +350,17 @@ impl Explorer {
                 stats.deepest_complete = depth;
             }
             if timed_out.load(Ordering::SeqCst) == 1 {
-                stats.capped = Some(format!(
-                    "time budget {:?} hit while expanding depth {} ({} of {} states expanded)",
-                    self.limits.time_budget,
-                    depth,
-                    results.len(),
-                    n
-                ));
+                stats.capped = Some(if hang_count.load(Ordering::SeqCst) >= HANG_CAP {
+                    format!("{} calls did not return while expanding depth {}: layer abandoned ({} of {} states expanded)", hang_count.load(Ordering::SeqCst), depth, results.len(), n)
+                } else {
+                    format!(
+                        "time budget {:?} hit while expanding depth {} ({} of {} states expanded)",
+                        self.limits.time_budget,
+                        depth,
+                        results.len(),
+                        n
+                    )
+                });
                 stop = true;
             }
             let mut next: Vec<Vec<Op>> = vec![];
